@@ -37,7 +37,7 @@ func kernelJobs() []Job {
 	}
 	// IntersectsSegment == spec over all reals: path-wise through the implementation, Raycast replaced by its
 	// contract (K1/K2 above); symmetry then follows from the symmetry of the spec (H_K_SpecSym).
-	out = append(out, Job{Pkg: "geometry", Harness: "H_K_SegSeg", Timeout: 120, Scale: true, Contracts: []string{fnRaycast}, ForkIn: []string{fnSegSeg},
+	out = append(out, Job{Pkg: "geometry", Harness: "H_K_SegSeg", Timeout: 120, Scale: true, Contracts: []string{fnRaycast}, ForkIn: []string{fnSegSeg}, Nlsat: true,
 		Note: "path-wise over IntersectsSegment, Raycast by contract"})
 	// direct end-to-end searches with everything inlined, on the integer lattice only
 	out = append(out, Job{Pkg: "geometry", Harness: "H_K_SegSegSym", Timeout: 45, LatticeOnly: 8, NoCover: true, Note: "inlined, lattice [-8,8] only"})
@@ -330,13 +330,13 @@ func leafJobs(tier string, fn, allow int) []Job {
 	c := []string{fnRaycast, fnSegSeg}
 	for i, r := range leafFamily(tier) {
 		params := append([]int{fn, allow, 1, 0}, ringParams(r)...)
-		out = append(out, Job{Pkg: "geometry", Harness: "H_Leaf_RingSeg", Params: params, Timeout: 120, Scale: true, Contracts: c, NoCover: i > 3})
+		out = append(out, Job{Pkg: "geometry", Harness: "H_Leaf_RingSeg", Params: params, Timeout: 120, Scale: true, Contracts: c, NoCover: i > 3, NoKnown: i > 5})
 	}
 	// index kinds and the unclosed encoding on the curated concave shapes
 	for _, r := range curatedRings[:4] {
 		for _, v := range [][2]int{{0, 1}, {0, 2}, {1, 1}, {1, 2}, {0, 0}} {
 			params := append([]int{fn, allow, v[0], v[1]}, ringParams(r)...)
-			out = append(out, Job{Pkg: "geometry", Harness: "H_Leaf_RingSeg", Params: params, Timeout: 120, Scale: true, Contracts: c, NoCover: true})
+			out = append(out, Job{Pkg: "geometry", Harness: "H_Leaf_RingSeg", Params: params, Timeout: 120, Scale: true, Contracts: c, NoCover: true, NoKnown: true})
 		}
 	}
 	return out
@@ -344,7 +344,7 @@ func leafJobs(tier string, fn, allow int) []Job {
 
 func segLemmaJobs() []Job {
 	out := raycastLemmaJobs()
-	out = append(out, Job{Pkg: "geometry", Harness: "H_K_SegSeg", Timeout: 120, Scale: true, Contracts: []string{fnRaycast}, ForkIn: []string{fnSegSeg}, Combine: true,
+	out = append(out, Job{Pkg: "geometry", Harness: "H_K_SegSeg", Timeout: 120, Scale: true, Contracts: []string{fnRaycast}, ForkIn: []string{fnSegSeg}, Combine: true, Nlsat: true,
 		Note: "lemma relied on by the IntersectsSegment contract: path-wise over IntersectsSegment"})
 	out = append(out, Job{Pkg: "geometry", Harness: "H_K_SpecSym", Timeout: 120, Scale: true, Note: "lemma: the segment-intersection spec is symmetric"})
 	out = append(out, Job{Pkg: "geometry", Harness: "H_K_SegSegBox", Timeout: 120, Scale: true, Note: "lemma instantiated where the implementation pre-filters by box"})
